@@ -123,6 +123,8 @@ def to_scen(n, place, cs):
         elif kd == "sw":
             c["weak"] = True
             c["shift"] = 1
+        elif kd == "x":
+            c["rejected"] = True          # a refused connect() call (handled by the script)
         elif kd == "a":
             c["async"] = True
         elif kd == "as":
@@ -286,7 +288,7 @@ def _walk_problem(topo, walk):
 
 def _fmt(scen):
     g = {s["sid"]: s.get("group") for s in scen["sims"]}
-    cs = [(c["src"], c["dst"], ("a" if c.get("async") else "") +
+    cs = [(c["src"], c["dst"], ("REFUSED:" if c.get("rejected") else "") + ("a" if c.get("async") else "") +
            ("sw" if c.get("shift") and c.get("weak") else "s" if c.get("shift") else "w" if c.get("weak")
             else "" if c.get("async") else "p"))
           for c in scen["conns"]]
@@ -347,6 +349,14 @@ def check(prop, tier):
     gs = list(sw_rings())
     counts["rings with a weak+time-shifted edge"] = len(gs)
     jobs.append((3, gs))
+    # every small graph plus ONE refused connect() call between each ordered pair (the script
+    # handles the ScenarioError): the refused call is not a connection
+    for n, k in ((2, 2), (3, 2)) if tier == "quick" else ((2, 3), (3, 3)):
+        gs = [(place, tuple(cs) + ((a, b, "x"),)) for place, cs in graphs(n, k, False)
+              for a in range(n) for b in range(n) if a != b]
+        counts[f"n={n},k<={k} + one refused connect()"] = len(gs)
+        for i in range(0, len(gs), 200):
+            jobs.append((n, gs[i:i + 200]))
     rep = findings.Reporter("C06")
     slow = []
     total = cyc_n = 0
